@@ -446,6 +446,9 @@ func (s *stableStore) Set(key, val []byte) error {
 func (s *stableStore) Get(key []byte) ([]byte, error) {
 	s.in.W.Mu.Lock()
 	defer s.in.W.Mu.Unlock()
+	if f := s.in.W.StableReadFault; f != nil && !s.in.dead && f(s.in, string(key)) {
+		return nil, ErrInjected
+	}
 	v, ok := s.in.disk.KV[string(key)]
 	if !ok || v == nil {
 		return nil, errors.New("not found")
@@ -463,6 +466,9 @@ func (s *stableStore) SetUint64(key []byte, val uint64) error {
 func (s *stableStore) GetUint64(key []byte) (uint64, error) {
 	s.in.W.Mu.Lock()
 	defer s.in.W.Mu.Unlock()
+	if f := s.in.W.StableReadFault; f != nil && !s.in.dead && f(s.in, string(key)) {
+		return 0, ErrInjected
+	}
 	return s.in.disk.KVInt[string(key)], nil
 }
 
